@@ -1,5 +1,7 @@
 // Copyright 2020 TiKV Project Authors. Licensed under Apache-2.0.
 
+use std::collections::VecDeque;
+
 use rtrb::Consumer;
 use rtrb::Producer;
 use rtrb::PushError;
@@ -10,7 +12,7 @@ pub fn bounded<T>(capacity: usize) -> (Sender<T>, Receiver<T>) {
     (
         Sender {
             tx,
-            pending_messages: Vec::new(),
+            pending_messages: VecDeque::new(),
         },
         Receiver { rx },
     )
@@ -18,7 +20,8 @@ pub fn bounded<T>(capacity: usize) -> (Sender<T>, Receiver<T>) {
 
 pub struct Sender<T> {
     tx: Producer<T>,
-    pending_messages: Vec<T>,
+    // Forced messages that found the ring full, oldest first.
+    pending_messages: VecDeque<T>,
 }
 
 pub struct Receiver<T> {
@@ -33,11 +36,11 @@ pub struct ChannelClosed;
 
 impl<T> Sender<T> {
     pub fn send(&mut self, value: T) -> Result<(), ChannelFull> {
-        while let Some(value) = self.pending_messages.pop() {
+        while let Some(value) = self.pending_messages.pop_front() {
             #[cfg(fastrace_verif)]
             self.verif_before_push(true);
             if let Err(PushError::Full(value)) = self.tx.push(value) {
-                self.pending_messages.push(value);
+                self.pending_messages.push_front(value);
                 #[cfg(fastrace_verif)]
                 crate::verif::point(crate::verif::Point::Dropped);
                 return Err(ChannelFull);
@@ -52,19 +55,21 @@ impl<T> Sender<T> {
     }
 
     pub fn force_send(&mut self, value: T) {
-        while let Some(value) = self.pending_messages.pop() {
+        // Parked messages go first, oldest first; the new one must not overtake them.
+        while let Some(pending) = self.pending_messages.pop_front() {
             #[cfg(fastrace_verif)]
             self.verif_before_push(true);
-            if let Err(PushError::Full(value)) = self.tx.push(value) {
-                self.pending_messages.push(value);
-                break;
+            if let Err(PushError::Full(pending)) = self.tx.push(pending) {
+                self.pending_messages.push_front(pending);
+                self.pending_messages.push_back(value);
+                return;
             }
         }
 
         #[cfg(fastrace_verif)]
         self.verif_before_push(false);
         if let Err(PushError::Full(value)) = self.tx.push(value) {
-            self.pending_messages.push(value);
+            self.pending_messages.push_back(value);
             #[cfg(fastrace_verif)]
             crate::verif::point(crate::verif::Point::Parked);
         }
